@@ -71,7 +71,13 @@ class DUCCIO():
         # initialize final strengths on first call, if not done explicitly at construction
         with torch.no_grad():
             if self.final_strengths is None:
-                self.final_strengths = tuple(torch.maximum(torch.tensor(0.0), self.task_loss / (model.get_cost(n) - t)) for n, t in self.targets.items())
+                strengths = []
+                for n, t in self.targets.items():
+                    excess = model.get_cost(n) - t
+                    # a cost at (or below) its target needs no regularization; dividing by a
+                    # null excess would give an infinite strength (and a nan loss)
+                    strengths.append(self.task_loss / excess if excess > 0 else torch.tensor(0.0))
+                self.final_strengths = tuple(strengths)
 
         cost = torch.tensor(0.0)
         for (cost_name, target), strength in zip(self.targets.items(), self.final_strengths):
